@@ -321,6 +321,10 @@ pub trait Sut: Send {
     fn reset(&mut self);
     /// derived `Clone`
     fn fork(&self) -> Box<dyn Sut>;
+    fn as_any(&self) -> &dyn std::any::Any;
+    /// `Clone::clone_from(self, src)` when `src` is the same indicator type (any parameters);
+    /// returns false and does nothing otherwise
+    fn clone_from_sut(&mut self, src: &dyn Sut) -> bool;
     /// `bincode::serialize`
     fn save(&self) -> Result<Vec<u8>, String>;
     /// `bincode::serialized_size`
@@ -386,6 +390,18 @@ impl<I: Ind> Sut for W<I> {
     }
     fn fork(&self) -> Box<dyn Sut> {
         Box::new(W(self.0.clone()))
+    }
+    fn as_any(&self) -> &dyn std::any::Any {
+        self
+    }
+    fn clone_from_sut(&mut self, src: &dyn Sut) -> bool {
+        match src.as_any().downcast_ref::<W<I>>() {
+            Some(s) => {
+                self.0.clone_from(&s.0);
+                true
+            }
+            None => false,
+        }
     }
     fn save(&self) -> Result<Vec<u8>, String> {
         bincode::serialize(&self.0).map_err(|e| e.to_string())
